@@ -1,6 +1,7 @@
 (* C14 on the generated generic code, for EVERY layout implementation f: what each operation returns *)
 From Coq Require Import NArith Bool List String.
-From PK Require Import Base.Outcome Base.Ctl Gen.Types Gen.Lib Impl Spec.Event Syn.Ev Check.Ev.
+From PK Require Import Base.Outcome Base.Ctl Gen.Types Gen.Lib Impl Spec.Event Check.Ev.
+From PK Require Props.C04.
 Import ListNotations.
 
 Section AnyLayout.
@@ -18,36 +19,33 @@ Section AnyLayout.
     | Some r => omap Some r
     end.
   Proof.
-    intros [hc m lay] [k s].
-    destruct k, s; try reflexivity;
-      cbv [EventDecoder_process_keyevent run_mut cbind cget cput cret call call_mut event_result is_modifier_key momentary omap
-           KeyEvent_code KeyEvent_state EventDecoder_modifiers EventDecoder_handle_ctrl EventDecoder_layout
-           EventDecoder_set_modifiers];
-      try (destruct (f lay _ m hc); reflexivity);
-      destruct m as [? ? ? ? ? ? ? ? []]; reflexivity.
+    intros d [k s]. destruct d.
+    timeout 300 (destruct k, s; cbv; Props.C04.split_goal f; reflexivity).
   Qed.
 
-  (* a change of mode or layout is in force from the very next key, and touches nothing else *)
-  Theorem C14_set_ctrl_handling : forall (d : EventDecoder L) hc,
-    EventDecoder_set_ctrl_handling f d hc = Ret (EventDecoder_mk hc (EventDecoder_modifiers d) (EventDecoder_layout d), tt).
-  Proof. intros [hc0 m lay] hc. reflexivity. Qed.
-  Theorem C14_change_layout : forall (d : EventDecoder L) l,
-    EventDecoder_change_layout f d l = Ret (EventDecoder_mk (EventDecoder_handle_ctrl d) (EventDecoder_modifiers d) l, tt).
-  Proof. intros [hc0 m lay] l. reflexivity. Qed.
+  (* processing a key event leaves the configuration (mode, layout) alone *)
+  Theorem C14_process_config : forall (d : EventDecoder L) ev d' r,
+    EventDecoder_process_keyevent f d ev = Ret (d', r) ->
+    EventDecoder_handle_ctrl d' = EventDecoder_handle_ctrl d /\ EventDecoder_layout d' = EventDecoder_layout d.
+  Proof.
+    intros d [k s] d' r H. destruct d.
+    timeout 300 (destruct k, s; Props.C04.by_cases f H).
+  Qed.
+
+  (* a change of mode or layout is in force from the very next key, and touches nothing else that a layout
+     can see *)
+  Theorem C14_set_ctrl_handling : forall (d : EventDecoder L) hc, exists d',
+    EventDecoder_set_ctrl_handling f d hc = Ret (d', tt) /\
+    EventDecoder_handle_ctrl d' = hc /\ EventDecoder_modifiers d' = EventDecoder_modifiers d /\ EventDecoder_layout d' = EventDecoder_layout d.
+  Proof. intros d hc. destruct d. cbv. Props.C04.split_goal f; eexists; repeat split. Qed.
+  Theorem C14_change_layout : forall (d : EventDecoder L) l, exists d',
+    EventDecoder_change_layout f d l = Ret (d', tt) /\
+    EventDecoder_layout d' = l /\ EventDecoder_modifiers d' = EventDecoder_modifiers d /\ EventDecoder_handle_ctrl d' = EventDecoder_handle_ctrl d.
+  Proof. intros d l. destruct d. cbv. Props.C04.split_goal f; eexists; repeat split. Qed.
   Theorem C14_new : forall l hc, omap (fun d => (EventDecoder_handle_ctrl d, EventDecoder_layout d)) (EventDecoder_new f l hc) = Ret (hc, l).
   Proof. reflexivity. Qed.
 End AnyLayout.
 
 Print Assumptions C14.
 Print Assumptions C14_set_ctrl_handling.
-
-(* the same on the recording-layout instance used for the correspondence with the compiled crate *)
-Lemma C14_syn_res : cex_res syn_ev = []. Proof. vm_compute. reflexivity. Qed.
-Lemma C14_syn_mode : cex_setmode syn_ev = []. Proof. vm_compute. reflexivity. Qed.
-Lemma C14_syn_init : cex_init14 syn_ev = []. Proof. vm_compute. reflexivity. Qed.
-Theorem C14_recording : forall hc ops, exists s0, ev_init syn_ev hc = Ret s0 /\ snd s0 = hc /\ results_ok syn_ev s0 ops.
-Proof. exact (C14_from_new syn_ev C14_syn_res C14_syn_mode C14_syn_init). Qed.
-Print Assumptions C14_recording.
-Eval vm_compute in ("evaluations"%string, N.of_nat (List.length all_steps + List.length all_modes)).
-Eval vm_compute in ("sample"%string, map (fun ev => spec_ev_step (initial_mods, HandleControl_Ignore) ev)
-   [KeyEvent_mk KeyCode_A KeyState_Down; KeyEvent_mk KeyCode_LShift KeyState_Down; KeyEvent_mk KeyCode_NumpadLock KeyState_Down]).
+Print Assumptions C14_process_config.
